@@ -320,6 +320,11 @@ func (s *sshJailService) Handle(ctx context.Context, conn net.Conn) error {
 						}
 
 						payload := decoder.String()
+						if decoder.LastError() != nil {
+							// a string that does not fit is not consumed: stop
+							break
+						}
+
 						payloads = append(payloads, payload)
 					}
 
@@ -447,6 +452,10 @@ func (s *sshJailService) Handle(ctx context.Context, conn net.Conn) error {
 							}
 
 							payload := decoder.String()
+							if decoder.LastError() != nil {
+								// a string that does not fit is not consumed: stop
+								break
+							}
 
 							arguments := []string{fmt.Sprintf("--name=%s", id), fmt.Sprintf("--overlay-named=%s", id), "--quiet", "--private-dev", "--private-tmp", "--private-opt=aabb", "--", "bash", "-c"}
 							arguments = append(arguments, payload)
